@@ -26,7 +26,7 @@ from pylib import tlc
 from pylib.common import rng, use_repo
 
 CATS = ["dev-lib", "dev-util", "sys-apps"]
-PKGS = ["bsdiff", "diffball", "fake"]
+PKGS = ["PyQt5", "bsdiff", "diffball", "fake"]  # pkgcore sorts names by code point: upper case first
 VERS = ["0.7", "1.0", "1.0-r1", "2.1"]
 MAX_LEAF_OCCURRENCES = 8
 
@@ -71,12 +71,14 @@ class Env:
             lambda n: P("category", V.StrRegex("lib$|^sys"), negate=n),
             lambda n: P("category", V.StrExactMatch("dev-lib", negate=True), negate=n),
             lambda n: P("category", V.OrRestriction(V.StrExactMatch("dev-lib"), V.StrExactMatch("sys-apps")), negate=n),
+            lambda n: P("category", V.StrExactMatch("DEV-Util", case_sensitive=False), negate=n),
         ]
         pkg = [
             lambda n: P("package", V.StrExactMatch("diffball"), negate=n),
             lambda n: P("package", V.StrGlobMatch("b"), negate=n),
             lambda n: P("package", V.StrRegex("f"), negate=n),
             lambda n: P("package", V.StrExactMatch("fake", negate=True), negate=n),
+            lambda n: P("package", V.StrExactMatch("pyqt5", case_sensitive=False), negate=n),
         ]
         oth = [
             lambda n: restricts.VersionMatch(">=", "1.0", negate=n),
@@ -113,28 +115,72 @@ class Env:
 
 
 class Universe:
-    def __init__(self, env, repos):
-        """repos: list of {cat: {pkg: [ver, ...]}} (repository index = position + 1, repo_id r<index>)"""
-        self.env, self.repos = env, repos
+    def __init__(self, env, repos, future=(), ebuild=None):
+        """repos: list of {cat: {pkg: [ver, ...]}} (repository index = position + 1, repo_id r<index>); a name
+        with an empty version list holds no package.  future: [(r, cat, pkg, ver)] members added later through
+        notify_add_package.  ebuild: contents of one more repository, created ON DISK as an ebuild repository
+        (plus file names that are not valid versions, which are not packages)."""
+        self.env, self.repos, self.future, self.ebuild = env, repos, [tuple(x) for x in future], ebuild
         self.trees = []
-        self.members, self.pairs = [], []
+        self.members, self.pairs, self.absent0 = [], [], []
         self.midx, self.pidx = {}, {}
-        for r, d in enumerate(repos, 1):
-            tree = env.SimpleTree({c: {p: list(v) for p, v in ps.items()} for c, ps in d.items()}, repo_id=f"r{r}")
-            tree.package_class = partial(env.QPkg, repo=tree)
+        alld = list(repos) + ([ebuild] if ebuild is not None else [])
+        for r, d in enumerate(alld, 1):
+            if ebuild is not None and r == len(alld):
+                tree = self._mk_ebuild_repo(d, f"r{r}")
+            else:
+                tree = env.SimpleTree({c: {p: list(v) for p, v in ps.items()} for c, ps in d.items()}, repo_id=f"r{r}", frozen=False)
+                tree.package_class = partial(env.QPkg, repo=tree)
             tree.verif_index = r
             self.trees.append(tree)
-            for c in sorted(d):
-                for p in sorted(d[c]):
-                    if not d[c][p]:
-                        continue
-                    up = env.UPkg(c, p, repo=tree)
-                    self.pairs.append((dict(c=CATS.index(c) + 1, p=PKGS.index(p) + 1, v=0, r=r), up))
-                    self.pidx[(r, c, p)] = len(self.pairs)
-                    for v in d[c][p]:
-                        m = env.QPkg(c, p, v, repo=tree)
-                        self.members.append((dict(c=CATS.index(c) + 1, p=PKGS.index(p) + 1, v=VERS.index(v) + 1, r=r), m))
-                        self.midx[(r, c, p, v)] = len(self.members)
+            content = {}
+            for c in d:
+                for p in d[c]:
+                    content.setdefault((c, p), []).extend(d[c][p])
+            fut = {}
+            for (fr, c, p, v) in self.future:
+                if fr == r:
+                    content.setdefault((c, p), [])
+                    fut.setdefault((c, p), []).append(v)
+            for (c, p) in sorted(content):
+                up = env.UPkg(c, p, repo=tree)
+                self.pairs.append((dict(c=CATS.index(c) + 1, p=PKGS.index(p) + 1, v=0, r=r), up))
+                self.pidx[(r, c, p)] = len(self.pairs)
+                for v in content[(c, p)] + fut.get((c, p), []):
+                    m = env.QPkg(c, p, v, repo=tree)
+                    self.members.append((dict(c=CATS.index(c) + 1, p=PKGS.index(p) + 1, v=VERS.index(v) + 1, r=r), m))
+                    self.midx[(r, c, p, v)] = len(self.members)
+                    if v in fut.get((c, p), []):
+                        self.absent0.append(len(self.members))
+
+    def _mk_ebuild_repo(self, d, repo_id):
+        import os
+
+        from pkgcore.ebuild import repo_objs, repository
+        from pylib.common import mktmp
+
+        Universe._n = getattr(Universe, "_n", 0) + 1
+        base = os.path.join(mktmp("c08"), f"repo{Universe._n}")
+        os.makedirs(os.path.join(base, "profiles"))
+        os.makedirs(os.path.join(base, "metadata"))
+        with open(os.path.join(base, "profiles", "repo_name"), "w") as f:
+            f.write(repo_id + "\n")
+        with open(os.path.join(base, "metadata", "layout.conf"), "w") as f:
+            f.write("masters =\ncache-formats =\nthin-manifests = true\n")
+        n = 0
+        for c in d:
+            for p in d[c]:
+                os.makedirs(os.path.join(base, c, p))
+                names = [f"{p}-{v}.ebuild" for v in d[c][p]]
+                n += 1
+                if n % 2:  # files that look like ebuilds of this package but carry no valid version: not packages
+                    names += [f"{p}-0-bad-.ebuild", f"{p}-1.0-bad-.ebuild", f"{p}-9-bad-.ebuild"]
+                for name in names:
+                    with open(os.path.join(base, c, p, name), "w") as f:
+                        f.write('SLOT="0"\n')
+        tree = repository.UnconfiguredTree(base, repo_config=repo_objs.RepoConfig(location=base))
+        tree.verif_raw = partial(self.env.QPkg, repo=tree)
+        return tree
 
     def header(self):
         def row(rec, obj):
@@ -142,7 +188,14 @@ class Universe:
             out["truth"] = [i + 1 for i, leaf in enumerate(self.env.leaves) if leaf.match(obj)]
             return out
 
-        return dict(tid=-1, i=0, ev="universe", members=[row(*x) for x in self.members], pairs=[row(*x) for x in self.pairs])
+        return dict(tid=-1, i=0, ev="universe", members=[row(*x) for x in self.members], pairs=[row(*x) for x in self.pairs],
+                    absent0=self.absent0)
+
+    def update(self, op, k):
+        """tell the (mutable, in-memory) repository that member k was added / removed"""
+        rec, obj = self.members[k - 1]
+        tree = self.trees[rec["r"] - 1]
+        getattr(tree, "notify_add_package" if op == "add" else "notify_remove_package")(obj)
 
     def index_of(self, obj, unversioned):
         r = obj.repo.verif_index
@@ -166,6 +219,8 @@ class Universe:
         try:
             if q["engine"] == "simple":
                 it = trees[0].itermatch(obj, **kw)
+            elif q["engine"] == "ebuild":
+                it = trees[0].itermatch(obj, raw_pkg_cls=trees[0].verif_raw, **kw)
             elif q["engine"] == "multiplex":
                 it = env.multiplex.tree(*trees).itermatch(obj, **kw)
             elif q["engine"] == "filtered":
@@ -197,22 +252,30 @@ EXTRA = [
     dict(engine="simple", mode="asc", unversioned=True, stack=[2]),
     dict(engine="filtered", mode="desc", unversioned=True, stack=[1]),
     dict(engine="caching", mode="plain", unversioned=False, stack=[2]),
+    dict(engine="ebuild", mode="plain", unversioned=False, stack=[4]),
+    dict(engine="ebuild", mode="asc", unversioned=False, stack=[4]),
+    dict(engine="simple", mode="plain", unversioned=True, stack=[2]),
+    dict(engine="ebuild", mode="desc", unversioned=False, stack=[4]),
 ]
 
 FIXED_REPOS = [
-    {"dev-util": {"diffball": ["1.0", "0.7"], "bsdiff": ["1.0-r1", "2.1"], "fake": ["1.0"]},
-     "dev-lib": {"fake": ["1.0", "1.0-r1"], "diffball": ["2.1"]},
-     "sys-apps": {"bsdiff": ["0.7"], "fake": ["2.1", "0.7"]}},
-    {"dev-util": {"diffball": ["1.0", "2.1"]}, "sys-apps": {"diffball": ["1.0-r1"], "bsdiff": ["0.7", "1.0"]},
-     "dev-lib": {"bsdiff": ["1.0"]}},
+    {"dev-util": {"diffball": ["1.0", "0.7"], "bsdiff": ["1.0-r1", "2.1"], "fake": ["1.0"], "PyQt5": ["1.0"]},
+     "dev-lib": {"fake": ["1.0", "1.0-r1"], "diffball": ["2.1"], "bsdiff": []},
+     "sys-apps": {"bsdiff": ["0.7"], "fake": ["2.1", "0.7"], "diffball": []}},
+    {"dev-util": {"diffball": ["1.0", "2.1"]}, "sys-apps": {"diffball": ["1.0-r1"], "bsdiff": ["0.7", "1.0"], "PyQt5": ["2.1", "0.7"]},
+     "dev-lib": {"bsdiff": ["1.0"], "fake": []}},
     {"dev-lib": {"fake": ["1.0"]}, "dev-util": {"fake": ["0.7", "1.0-r1"]}},
 ]
+FIXED_EBUILD = {"dev-util": {"diffball": ["0.7", "1.0", "1.0-r1", "2.1"], "PyQt5": ["1.0", "2.1"], "fake": ["1.0"]},
+                "dev-lib": {"bsdiff": ["0.7", "1.0", "2.1"], "fake": ["1.0-r1", "2.1"]},
+                "sys-apps": {"fake": ["0.7", "1.0", "1.0-r1", "2.1"], "diffball": ["1.0"]}}
 
 
 def render_exported(env, t, n):
     """slots 1..4 -> real leaf ids; the leaf's neg flag selects the negate=True twin (atoms: a Negate wrapper)."""
-    v1 = n % 5
-    pick = {1: ("c", v1), 3: ("c", (v1 + 1 + (n // 5) % 4) % 5), 2: ("p", (n // 3) % 4)}
+    nc, np_ = len(env.slot["c"]), len(env.slot["p"])
+    v1 = n % nc
+    pick = {1: ("c", v1), 3: ("c", (v1 + 1 + (n // nc) % (nc - 1)) % nc), 2: ("p", (n // 3) % np_)}
     ov = (n // 7) % 6
 
     def remap(x):
@@ -263,10 +326,13 @@ def random_repos(r_):
         d = {}
         for c in CATS:
             for p in PKGS:
-                if r_.random() < 0.55:
+                x = r_.random()
+                if x < 0.5:
                     vs = [v for v in VERS if r_.random() < 0.5] or [r_.choice(VERS)]
                     r_.shuffle(vs)
                     d.setdefault(c, {})[p] = vs
+                elif x < 0.58:
+                    d.setdefault(c, {})[p] = []  # a listed name without any version
         if not d:
             d = {"dev-util": {"fake": ["1.0"]}}
         items = list(d.items())
@@ -275,9 +341,12 @@ def random_repos(r_):
     return repos
 
 
-def random_query(env, uni, r_):
+def random_query(env, uni, r_, dynamic=False):
     n = len(uni.repos)
-    engine = r_.choice(["simple", "simple", "multiplex", "multiplex", "filtered", "caching"])
+    engine = r_.choice(["simple", "simple", "multiplex", "multiplex", "filtered"] + ([] if dynamic else ["caching"])
+                       + (["ebuild"] if uni.ebuild is not None else []))
+    if engine == "ebuild":
+        return dict(engine=engine, mode=r_.choice(["plain", "asc", "desc"]), unversioned=False, stack=[n + 1], filt=dict(id=0, keep=False))
     q = dict(engine=engine, mode=r_.choice(["plain", "asc", "desc"]), unversioned=False, stack=[r_.randint(1, n)])
     if engine == "multiplex":
         st = list(range(1, n + 1))
@@ -291,6 +360,41 @@ def random_query(env, uni, r_):
     return q
 
 
+def random_future(repos, r_):
+    """packages that will be added later: new names in known categories, new versions, new categories"""
+    out = []
+    for r, d in enumerate(repos, 1):
+        for c in CATS:
+            for p in PKGS:
+                have = d.get(c, {}).get(p, [])
+                for v in VERS:
+                    if v not in have and r_.random() < 0.15:
+                        out.append((r, c, p, v))
+    return out
+
+
+def dynamic_history(b, env, r_, steps):
+    """updates through the repository's own notification API interleaved with queries"""
+    uni = b.uni
+    absent = set(uni.absent0)
+    present = set(range(1, len(uni.members) + 1)) - absent
+    b.scan()
+    for _ in range(steps):
+        x = r_.random()
+        if x < 0.18 and absent:
+            k = r_.choice(sorted(absent))
+            b.update("add", k)
+            absent.discard(k)
+            present.add(k)
+        elif x < 0.28 and present:
+            k = r_.choice(sorted(present))
+            b.update("remove", k)
+            present.discard(k)
+            absent.add(k)
+        else:
+            b.run(random_tree(env, r_), random_query(env, uni, r_, dynamic=True), "dynamic")
+
+
 def mc_cfg(nleaves, depth, rich, inv):
     return (f"SPECIFICATION Spec\nCONSTANTS\n NLeaves = {nleaves}\n MaxDepth = {depth}\n RichSiblings = {rich}\n FullDepth = 0\n"
             + "".join(f"INVARIANT {x}\n" for x in inv))
@@ -299,22 +403,34 @@ def mc_cfg(nleaves, depth, rich, inv):
 class Batch:
     """events of one universe, judged by one TLC run"""
 
-    def __init__(self, ck, env, repos, label):
-        self.ck, self.env, self.label = ck, env, label
-        self.uni = Universe(env, repos)
-        self.events, self.meta = [], []
+    def __init__(self, ck, env, repos, label, future=(), ebuild=None, dynamic=False):
+        self.ck, self.env, self.label, self.dynamic = ck, env, label, dynamic
+        self.uni = Universe(env, repos, future, ebuild)
+        self.events, self.meta, self.steps = [], [], []
 
     def run(self, t, q, origin):
         q = dict(q)
         q.setdefault("filt", dict(id=0, keep=False))
         raised, exc, gots = self.uni.query(t, q)
+        self.steps.append(dict(step="query", tree=t, query=q))
         for rep, got in enumerate(gots):
             self.events.append(dict(tid=len(self.events), i=rep, ev="query", mode=q["mode"], unversioned=q["unversioned"], stack=q["stack"],
                                     filt=q["filt"], t=t, raised=raised, got=got))
-            self.meta.append(dict(q=q, exc=exc, origin=origin))
+            self.meta.append(dict(q=q, exc=exc, origin=origin, nsteps=len(self.steps) - 1))
         self.ck.count()
         if t["k"] != "leaf":
-            self.ck.nontriv((shape(t), q["engine"], q["mode"], q["unversioned"], tuple(q["stack"]), repr(self.uni.repos)))
+            self.ck.nontriv((shape(t), q["engine"], q["mode"], q["unversioned"], tuple(q["stack"]), repr(self.uni.repos), len(self.steps) if self.dynamic else 0))
+
+    def update(self, op, k):
+        self.uni.update(op, k)
+        self.steps.append(dict(step=op, k=k))
+        self.events.append(dict(tid=len(self.events), i=0, ev=op, k=k))
+        self.meta.append(dict(q=None, exc="", origin="update", nsteps=len(self.steps) - 1))
+
+    def scan(self):
+        """full scan: what every consumer does first (fills the listing caches)"""
+        for tree in self.uni.trees[: len(self.uni.repos)]:
+            list(tree)
 
     def judge(self):
         if not self.events:
@@ -328,7 +444,8 @@ class Batch:
             names = [self._name(k, e["unversioned"]) for k in e["got"]]
             ck.violation(v["clause"], dict(
                 tree=e["t"], shape=shape(e["t"]), root=e["t"]["k"], query=m["q"], engine=m["q"]["engine"], exc=m["exc"], origin=m["origin"],
-                repos=self.uni.repos, got=names,
+                repos=self.uni.repos, future=self.uni.future, ebuild=self.uni.ebuild, got=names,
+                history=self.steps[: m["nsteps"]] if self.dynamic else [],
                 leaves={str(i): self.env.desc[i - 1] for i in sorted(_ids(e["t"], set()))},
                 kinds=sorted({type(self.env.leaves[i - 1]).__name__ for i in _ids(e["t"], set())})))
 
@@ -358,7 +475,14 @@ def run(ck):
     ]
     if ck.replay_case:
         d = ck.replay_case["detail"]
-        b = Batch(ck, env, d["repos"], "Trace:replay")
+        b = Batch(ck, env, d["repos"], "Trace:replay", d.get("future", ()), d.get("ebuild"), dynamic=bool(d.get("history")))
+        if d.get("history"):
+            b.scan()
+        for st in d.get("history", []):
+            if st["step"] == "query":
+                b.run(st["tree"], st["query"], "history")
+            else:
+                b.update(st["step"], st["k"])
         b.run(d["tree"], d["query"], d.get("origin", "replay"))
         b.judge()
         ck.nontriv("replay2")
@@ -370,6 +494,14 @@ def run(ck):
         ck.mc("RepoQuery_MC", cfg_text=mc_cfg(3, 2, '"basic"', inv), workers=4, timeout=300, label="MC:RepoQuery_MC 3 leaves depth2 basic")
     else:
         ck.mc("RepoQuery_MC", cfg_text=mc_cfg(4, 2, '"mid"', inv), workers=4, timeout=840, label="MC:RepoQuery_MC 4 leaves depth2 mid")
+    lcfg = ('SPECIFICATION Spec\nCONSTANTS\n Cats = {"a", "b"}\n Names = {"x", "y"}\n Vers = {1, 2}\n InvalidateOnlyNewCategory = %s\n'
+            "INVARIANT Coherent\nINVARIANT Complete\n")
+    ck.mc("RepoListing_MC", cfg_text=lcfg % "FALSE", workers=4, timeout=300, label="MC:RepoListing_MC listing caches under add/remove")
+    if not ck.quick:
+        lneg = ck.mc("RepoListing_MC", cfg_text=lcfg % "TRUE", workers=2, timeout=300, expect_ok=False,
+                     label="MC:RepoListing_MC negative control (invalidate only for a new category)")
+        if lneg.violated not in ("Coherent", "Complete"):
+            raise tlc.MachineryError("negative control: partial invalidation was not found incoherent by the model")
     neg = ck.mc("RepoQuery_MC", cfg_text=mc_cfg(3, 1, '"basic"', ["InvShippedSound"]), workers=2, timeout=300, expect_ok=False,
                 label="MC:RepoQuery_MC negative control (snapshot collector)")
     if neg.violated != "InvShippedSound":
@@ -379,7 +511,7 @@ def run(ck):
     cases = ck.export("RepoQuery_Export", cfg_text=f"CONSTANT Level = {ck.pick(1, 2)}\n", timeout=900)
     cases.sort(key=lambda c: repr(c))
     ck.extra["exported_trees"] = len(cases)
-    b = Batch(ck, env, FIXED_REPOS, "Trace:exported-trees")
+    b = Batch(ck, env, FIXED_REPOS, "Trace:exported-trees", ebuild=FIXED_EBUILD)
     for n, case in enumerate(cases):
         t = render_exported(env, case["t"], n)
         b.run(t, dict(engine="simple", mode="plain", unversioned=False, stack=[1 + n % 2]), "export")
@@ -389,16 +521,23 @@ def run(ck):
         b.run(t, q, "export")
         if len(b.events) >= 25000:
             b.judge()
-            b = Batch(ck, env, FIXED_REPOS, f"Trace:exported-trees@{n}")
+            b = Batch(ck, env, FIXED_REPOS, f"Trace:exported-trees@{n}", ebuild=FIXED_EBUILD)
     ck.sample(dict(direction="spec->code", event=b.events[len(b.events) // 2]))
     b.judge()
     ck.exhaustive = True
     # 3. code -> spec
     r_ = rng(8)
     for u in range(ck.pick(1, 8)):
-        b = Batch(ck, env, random_repos(r_), f"Trace:random-universe-{u}")
+        repos = random_repos(r_)
+        b = Batch(ck, env, repos, f"Trace:random-universe-{u}", ebuild=repos[0] if u % 2 == 0 else None)
         for _ in range(ck.pick(800, 2500)):
             b.run(random_tree(env, r_), random_query(env, b.uni, r_), "random")
         if u == 0:
             ck.sample(dict(direction="code->spec", repos=b.uni.repos, event=b.events[-1]))
+        b.judge()
+    # 4. repositories updated through notify_add_package / notify_remove_package between queries
+    for u in range(ck.pick(3, 30)):
+        repos = random_repos(r_)
+        b = Batch(ck, env, repos, f"Trace:updated-universe-{u}", future=random_future(repos, r_), dynamic=True)
+        dynamic_history(b, env, r_, ck.pick(80, 120))
         b.judge()
